@@ -562,3 +562,26 @@ Section ResumeMain.
       rewrite the_pid_shape in HF. apply HF. rewrite skipn_length. lia.
   Qed.
 End ResumeMain.
+
+(* ------------------------------------------------------------------ seek_to_token on ANY session *)
+Section SeekMain.
+  Variable progs : N -> stream_prog.
+
+  (* whatever the session was before (fresh, finished by its /init response, read to end-of-stream): after
+     seek_to_token(tok) iteration observes the reference semantics of the remaining steps *)
+  Theorem seek_remaining : forall w0 sh pid cid ss w1 fuel rs w2 k b tok,
+    cap (w_cfg w0) = None ->
+    open_sess progs w0 sh pid cid = inr (ss, w1) ->
+    nwt_all progs fuel w1 ss = (rs, w2) ->
+    nth_error rs k = Some (NItem b (Some tok)) ->
+    forall (any : sess) w' c fuel', w_key w' = w_key w0 -> cache_ok cid (callpid_of sh pid) (w_cache w') ->
+      (length (steps (progs pid)) < fuel')%nat ->
+      fst (fst (iter_sess progs fuel' c w' (seek any tok))) = obs_prod c (skipn (S k) (steps (progs pid))) None.
+  Proof.
+    intros w0 sh pid cid ss w1 fuel rs w2 k b tok Hc Ho Ha Hn any w' c fuel' Hk Hcache Hf.
+    destruct (resume_remaining progs w0 sh pid cid ss w1 fuel rs w2 k b tok Hc Ho Ha Hn) as [_ [_ H]].
+    specialize (H w' c fuel' Hk Hcache Hf). unfold resume_iter in H.
+    unfold iter_sess, seek. cbn [s_fin s_ct s_kt s_pend map app].
+    destruct (follow progs fuel' c w' (fst tok) (snd tok)) as [[es tr] w'']. exact H.
+  Qed.
+End SeekMain.
